@@ -189,4 +189,19 @@ CHECKS["C01"] = dict(
              "enumerable: the claim is for the pattern alphabet and the complete small scopes, for every N and configuration.",
 )
 
+CHECKS["C07"] = dict(
+        src="checks/c07.cpp", cfg="rel", link="static", engine="A-case-explorer",
+        category="exploration", design_ref="DESIGN.md section 4, C07",
+        technique="bounded-exhaustive enumeration of the (accelerated, reference) kernel-pair table x sizes x pointer offsets, and of the public API under every dispatch mask, on the real code",
+        text="Every variant group of the exported-kernel table (znx add/sub/negate are in C08's kernel part; here: conversions, reim4 extract/save/"
+             "layout, q120 products, rnx divide, ...) is run on identical inputs with the accelerated variants on misaligned pointers: integer and "
+             "data-movement kernels must equal the model and the reference bit for bit, lazy q120 products modulo each prime; floating-point pairs "
+             "(14 pointwise kernels, twiddle fma/avx512, reim4 dot products, the 8 FFT drivers) must BOTH be within the a-priori rounding bound of "
+             "the exact binary128 result; the whole entry-point table is executed under the four CPU-feature masks and must give identical "
+             "integers and DFT-space values within a normwise rounding bound; function-pointer identity shows which kernel each constructor and "
+             "module selected for every mask and size threshold.",
+        note="Kernels without any reference semantics (bitwiddle fma/avx512, add/sub2_to/copy fma) are excluded (listed in the evidence "
+             "assumptions); sizes bounded by the tier; AVX-512 kernels run because this CPU has AVX-512.",
+)
+
 NOT_YET = {}
